@@ -700,7 +700,18 @@ where
 	ret_slate.tx = Some(Slate::empty_transaction());
 
 	// if self sending, make sure to store 'initiator' keys
-	let context_res = w.get_private_context(keychain_mask, slate.id.as_bytes());
+	// (only the context saved when this wallet itself issued the invoice means self-sending)
+	let context_res = match w.get_private_context(keychain_mask, slate.id.as_bytes()) {
+		// left by an earlier processing of this same invoice: start afresh
+		Ok(c) if c.calculated_excess.is_some() => {
+			Err(Error::GenericError("stale invoice context".to_owned()))
+		}
+		// the id is that of one of this wallet's own pending sends
+		Ok(c) if !c.input_ids.is_empty() || c.late_lock_args.is_some() => {
+			return Err(Error::TransactionAlreadyReceived(ret_slate.id.to_string()));
+		}
+		r => r,
+	};
 
 	let mut context = tx::add_inputs_to_slate(
 		&mut *w,
